@@ -2,7 +2,10 @@
 //! clock: one bar, template `{msg}`, every `set_message` is an ordinary (non-forced) redraw request.
 use crate::common::*;
 use indicatif::verif_hooks as vh;
-use indicatif::{ProgressBar, ProgressDrawTarget, ProgressStyle};
+use indicatif::style::ProgressTracker;
+use indicatif::{ProgressBar, ProgressDrawTarget, ProgressState, ProgressStyle};
+use std::sync::atomic::{AtomicUsize, Ordering};
+use std::sync::Arc;
 
 pub const T0: u64 = 1_000_000_000_000;
 
@@ -25,7 +28,9 @@ fn gap(rng: &mut Rng, i_ns: u64) -> u64 {
 
 /// returns (case line, observation line, oracle verdict)
 pub fn one_case(rng: &mut Rng, rate: u8, ncalls: usize) -> (String, String) {
-    let i_ns = (1000 / rate as u64) * 1_000_000;
+    // gaps cluster around multiples of the interval: the exact one (1/rate s rounded up to ns) and the
+    // whole-millisecond one, so that a limiter using either is exercised at its boundaries
+    let i_ns = if rng.chance(2, 3) { (1_000_000_000 + rate as u64 - 1) / rate as u64 } else { (1000 / rate as u64) * 1_000_000 };
     vh::set_auto_advance_ns(0);
     vh::set_now_ns(T0);
     let rec = Recorder::new(10, 40, false);
@@ -49,7 +54,7 @@ pub fn one_case(rng: &mut Rng, rate: u8, ncalls: usize) -> (String, String) {
         if painted { painted_times.push(t); }
     }
     std::mem::forget(pb); // no final forced frame
-    let case = format!("C05 {rate} {T0} {}", times.iter().map(|t| t.to_string()).collect::<Vec<_>>().join(" "));
+    let case = format!("C05 FX={} {rate} {T0} {}", crate::common::fx("limiter"), times.iter().map(|t| t.to_string()).collect::<Vec<_>>().join(" "));
     // oracle: the property's own bound, over all windows delimited by painted frames
     let r = rate as u128;
     let mut verdict = String::from("ok");
@@ -77,6 +82,76 @@ pub fn one_case(rng: &mut Rng, rate: u8, ncalls: usize) -> (String, String) {
         }
     }
     (case, format!("{bits} ORACLE {verdict}"))
+}
+
+/// counts `ProgressTracker::tick` calls: one per tick that the position gate lets through
+#[derive(Clone)]
+struct Counter(Arc<AtomicUsize>);
+impl ProgressTracker for Counter {
+    fn clone_box(&self) -> Box<dyn ProgressTracker> { Box::new(self.clone()) }
+    fn tick(&mut self, _: &ProgressState, _: vh::Instant) { self.0.fetch_add(1, Ordering::SeqCst); }
+    fn reset(&mut self, _: &ProgressState, _: vh::Instant) {}
+    fn write(&self, _: &ProgressState, w: &mut dyn std::fmt::Write) { let _ = w.write_str("k"); }
+}
+
+fn pos_gap(rng: &mut Rng) -> u64 {
+    const MS: u64 = 1_000_000;
+    match rng.below(14) {
+        0 | 1 | 2 | 3 => 0, 4 => 1, 5 => MS - 1, 6 => MS, 7 => MS + 1, 8 => { let k = rng.range(2, 15); k * MS - 1 + rng.below(3) }
+        9 => rng.below(MS), 10 => (12 + rng.below(100)) * MS + rng.below(MS), 11 => MS / 2, 12 => rng.range(1, 5) * 1_000_000_000, _ => rng.below(2 * MS + 1),
+    }
+}
+
+/// position gate + draw limiter through `inc` on a visible bar: which calls tick (counting tracker),
+/// which of those are painted (flushes); oracle: the gate's window bound and liveness, the draw
+/// limiter's window bound, and the staleness bound of the statement for continuously updated bars
+pub fn one_case_pos(rng: &mut Rng, rate: u8, ncalls: usize) -> (String, String) {
+    vh::set_auto_advance_ns(0);
+    vh::set_now_ns(T0);
+    let rec = Recorder::new(10, 40, false);
+    let pb = ProgressBar::with_draw_target(Some(u64::MAX), ProgressDrawTarget::term_like_with_hz(Box::new(rec.clone()), rate));
+    let cnt = Arc::new(AtomicUsize::new(0));
+    pb.set_style(ProgressStyle::with_template("{pos} {k}").unwrap().with_key("k", Counter(cnt.clone())));
+    let (mut t, mut burst) = (T0, 0u64);
+    let continuous = rng.chance(1, 2);   // every gap at most 1 ms: "a continuously updated bar"
+    let (mut times, mut gate, mut paint) = (Vec::with_capacity(ncalls), String::new(), String::new());
+    let mut gate_times: Vec<u64> = Vec::new(); let mut paint_times: Vec<u64> = Vec::new();
+    for _ in 0..ncalls {
+        let g = if burst > 0 { burst -= 1; 0 } else { let g = pos_gap(rng); if g > 11_000_000 && rng.chance(1, 2) { burst = rng.range(8, 30); } g };
+        let g = if continuous { g.min(1_000_000) } else { g };
+        t += g; vh::set_now_ns(t);
+        let (c0, f0) = (cnt.load(Ordering::SeqCst), rec.flushes());
+        pb.inc(1);
+        let (ticked, painted) = (cnt.load(Ordering::SeqCst) > c0, rec.flushes() > f0);
+        times.push(t); gate.push(if ticked { '1' } else { '0' }); paint.push(if painted { '1' } else { '0' });
+        if ticked { gate_times.push(t); } if painted { paint_times.push(t); }
+    }
+    std::mem::forget(pb);
+    let case = format!("C05P FX={} {rate} {T0} {}", crate::common::fx("limiter"), times.iter().map(|t| t.to_string()).collect::<Vec<_>>().join(" "));
+    let mut verdict = String::from("ok");
+    // gate: at most 10 + T/1ms + 1 ticks in any window; a call at least 1 ms after the last tick ticks
+    'g: for i in 0..gate_times.len() { for j in i..gate_times.len() { let k = (j - i + 1) as u128; let tn = (gate_times[j] - gate_times[i]) as u128;
+        if k > 11 && (k - 11) * 1_000_000 > tn { verdict = format!("FAIL gate-window i={i} j={j} k={k} t_ns={tn}"); break 'g; } } }
+    if verdict == "ok" { let mut last: Option<u64> = None; for (idx, (&tt, b)) in times.iter().zip(gate.chars()).enumerate() {
+        match last { Some(l) => if tt - l >= 1_000_000 && b == '0' { verdict = format!("FAIL gate-liveness call={idx} t={tt} last_tick={l}"); break; }, None => if b == '0' { verdict = "FAIL gate-liveness first call did not tick".into(); break; } }
+        if b == '1' { last = Some(tt); } } }
+    // staleness: at every call time of a continuously updated bar a frame was painted within 1/R s + 1 ms
+    if verdict == "ok" && continuous { let r = rate as u128; let mut last: Option<u64> = None; for (idx, (&tt, b)) in times.iter().zip(paint.chars()).enumerate() {
+        if b == '1' { last = Some(tt); }
+        let stale = (tt - last.unwrap_or(T0)) as u128;
+        if stale * r > 1_000_000_000 + 1_000_000 * r { verdict = format!("FAIL staleness call={idx} stale_ns={stale} rate={rate}"); break; } } }
+    (case, format!("{gate} {paint} ORACLE {verdict}"))
+}
+
+pub fn run_pos(seed: u64, tier: &str, out: &mut Out) {
+    let mut rng = Rng::new(seed ^ 0x5050);
+    let (ncases, maxcalls) = if tier == "thorough" { (40_000usize, 600usize) } else { (1_500usize, 300usize) };
+    for _ in 0..ncases {
+        let rate = *rng.pick(&[1u8, 2, 3, 7, 10, 15, 20, 30, 60, 100, 125, 144, 200, 250, 254, 255]);
+        let ncalls = rng.range(20, maxcalls as u64) as usize;
+        let (case, obs) = one_case_pos(&mut rng, rate, ncalls);
+        out.emit(&case, &obs);
+    }
 }
 
 pub fn run(seed: u64, tier: &str, out: &mut Out) {
